@@ -1,7 +1,8 @@
 /- reader for FPCore expressions (tagged S-expressions written by harness/c12.py from titanfp's AST);
 op `fpceval <fuel> (params…) (props…) <expr> (args…)` -/
 import Driver.Lang
-import Fpy.Model.FPCoreCompile
+import Fpy.Model.FPCoreLoops
+import Fpy.Model.FPCoreRead
 namespace Fpy.Drv.FPC
 open Fpy Fpy.Lang Fpy.C12 Fpy.Drv
 
@@ -132,7 +133,111 @@ partial def sstmtOf : Sexp → R SStmt
 partial def sblockOf (xs : List Sexp) : R (List SStmt) := xs.mapM sstmtOf
 end
 
+/-! source programs of the subset with loops; printing of FPCore expressions -/
+partial def lexprOf : Sexp → R LExpr
+  | .list [.atom "var", .atom x] => .ok (.var x)
+  | .list [.atom "lit", .atom t] => do .ok (.lit (← nvOfTok t))
+  | .list (.atom "op" :: .atom name :: args) => do
+    match opOfName name with
+    | some o => .ok (.op o (← args.mapM lexprOf))
+    | none => .error s!"op:{name}"
+  | .list [.atom "cmp", .atom o, a, b] => do .ok (.cmp (← copOf o) (← lexprOf a) (← lexprOf b))
+  | .list (.atom "tuple" :: es) => do .ok (.tuple (← es.mapM lexprOf))
+  | x => .error s!"lexpr: {x.toString}"
+
+mutual
+partial def lstmtOf : Sexp → R LStmt
+  | .list [.atom "assign", .atom x, e] => do .ok (.assign x (← lexprOf e))
+  | .list [.atom "tassign", .list xs, e] => do .ok (.tassign (← xs.mapM atomOf) (← lexprOf e))
+  | .list [.atom "with", .list d, .list b] => do .ok (.with_ (← descOf d) (← lblockOf b))
+  | .list [.atom "if", c, .list t, .list f] => do .ok (.ifte (← lexprOf c) (← lblockOf t) (← lblockOf f))
+  | .list [.atom "if1", c, .list t] => do .ok (.if1 (← lexprOf c) (← lblockOf t))
+  | .list [.atom "while", c, .list b] => do .ok (.while_ (← lexprOf c) (← lblockOf b))
+  | .list [.atom "for", .atom x, .atom n, .list b] =>
+    match n.toNat? with
+    | some k => do .ok (.forRange x k (← lblockOf b))
+    | none => .error s!"for bound: {n}"
+  | .list [.atom "return", e] => do .ok (.ret (← lexprOf e))
+  | x => .error s!"lstmt: {x.toString}"
+partial def lblockOf (xs : List Sexp) : R (List LStmt) := xs.mapM lstmtOf
+end
+
+def showNVq : NV → String
+  | .q n d => s!"Q{n}/{d}"
+  | .fv v => "F" ++ canonFV v
+
+def showCmp : CmpOp → String
+  | .lt => "lt" | .le => "le" | .gt => "gt" | .ge => "ge" | .eq => "eq" | .ne => "ne"
+
+def showPropsX (p : Props) : String :=
+  let a := match p.prec with | some x => [s!"(prec {match x with | .float es nb => s!"float {es} {nb}" | .fixed sc nb => s!"fixed {sc} {nb}" | y => showPrec y})"] | none => []
+  let b := match p.round with | some r => [s!"(round {showRName r})"] | none => []
+  let c := match p.ov with | some o => [s!"(ov {showOName o})"] | none => []
+  "(" ++ " ".intercalate (a ++ b ++ c) ++ ")"
+
+def opName (o : Op) : String :=
+  match o with
+  | .add => "add" | .sub => "sub" | .mul => "mul" | .div => "div" | .fma => "fma" | .neg => "neg" | .fabs => "fabs"
+  | .sqrt => "sqrt" | .copysign => "copysign" | .fdim => "fdim" | .fmin => "fmin" | .fmax => "fmax" | .ceil => "ceil"
+  | .floor => "floor" | .trunc => "trunc" | .roundint => "roundint" | .nearbyint => "nearbyint" | .round => "round"
+  | .roundExact => "round_exact" | .cbrt => "cbrt" | .hypot => "hypot" | .mod => "mod" | .fmod => "fmod"
+  | .remainder => "remainder" | .pow => "pow" | .roundAt => "round_at" | .cast => "cast"
+
+/-- the tagged S-expression `harness/c12.py` writes for a titanfp core (`core_expr`) -/
+partial def showF : FExpr → String
+  | .var x => s!"(var {x})"
+  | .num v => s!"(num {showNVq v})"
+  | .const c => "(const " ++ (match c with | .true_ => "TRUE" | .false_ => "FALSE" | .nan => "NAN" | .infinity => "INFINITY") ++ ")"
+  | .op o args => s!"(op {opName o} " ++ " ".intercalate (args.map showF) ++ ")"
+  | .pred _ a => s!"(pred ? {showF a})"
+  | .cmp o args => s!"(cmp {showCmp o} " ++ " ".intercalate (args.map showF) ++ ")"
+  | .and es => "(and " ++ " ".intercalate (es.map showF) ++ ")"
+  | .or es => "(or " ++ " ".intercalate (es.map showF) ++ ")"
+  | .not e => s!"(not {showF e})"
+  | .ite c t f => s!"(if {showF c} {showF t} {showF f})"
+  | .let_ star bs body =>
+    (if star then "(letstar (" else "(let (") ++ " ".intercalate (bs.map fun b => s!"({b.1} {showF b.2})") ++ s!") {showF body})"
+  | .while_ star c bs body =>
+    (if star then "(whilestar " else "(while ") ++ showF c ++ " (" ++
+      " ".intercalate (bs.map fun b => s!"({b.1} {showF b.2.1} {showF b.2.2})") ++ s!") {showF body})"
+  | .for_ star ds bs body =>
+    (if star then "(forstar (" else "(for (") ++ " ".intercalate (ds.map fun b => s!"({b.1} {showF b.2})") ++ ") (" ++
+      " ".intercalate (bs.map fun b => s!"({b.1} {showF b.2.1} {showF b.2.2})") ++ s!") {showF body})"
+  | .tensor ds body => "(tensor (" ++ " ".intercalate (ds.map fun b => s!"({b.1} {showF b.2})") ++ s!") {showF body})"
+  | .array es => "(array " ++ " ".intercalate (es.map showF) ++ ")"
+  | .ref a idx => s!"(ref {showF a} " ++ " ".intercalate (idx.map showF) ++ ")"
+  | .size a k => s!"(size {showF a} {showF k})"
+  | .dim a => s!"(dim {showF a})"
+  | .ann p e => s!"(ann {showPropsX p} {showF e})"
+
+/-- the order table `((site (sorted names…) (order…)) …)`: what `ord` returns at the listed sites for the listed sets,
+identity elsewhere -/
+def ordOf (table : List (Nat × List String × List String)) (k : Nat) (l : List String) : List String :=
+  match table.find? (fun e => e.1 == k && e.2.1 == l) with
+  | some e => e.2.2
+  | none => l
+
+def ordTableOf (xs : List Sexp) : R (List (Nat × List String × List String)) :=
+  xs.mapM fun x => match x with
+    | .list [.atom k, .list a, .list b] => do .ok (k.toNat?.getD 0, (← a.mapM atomOf), (← b.mapM atomOf))
+    | y => .error s!"ord entry: {y.toString}"
+
+/-- parse `<unsafe 0|1> (ord table) (params…) <_ | (desc)> (statements…)` -/
+def lprogOf : List Sexp → R (Cfg × List String × Option CDesc × List LStmt)
+  | [.atom u, .list tbl, .list params, decl, .list body] => do
+    let table ← ordTableOf tbl
+    let ps ← params.mapM atomOf
+    let d ← (match decl with
+      | .atom "_" => .ok none
+      | .list xs => do .ok (some (← descOf xs))
+      | x => .error s!"decl: {x.toString}")
+    let b ← lblockOf body
+    .ok ({ unsafeInt := u == "1", ord := ordOf table }, ps, d, b)
+  | _ => .error "shape"
+
 /-- `fpceval <fuel> (params…) (props…) <expr> (args…)`; tensors are written `(t v…)`;
+`fpccompile <unsafe> (ord table) (params…) <_ | (desc)> (statements…)`: the MODEL compiler's output, printed;
+`fpcmodel2 <fuel> <unsafe> (ord table) (params…) <_ | (desc)> (statements…) (args…)`: … evaluated;
 `fpcmodel <fuel> (params…) <_ | (context description)> (statements…) (args…)`: compile with the MODEL of the
 compiler, evaluate the result with the FPCore evaluator;
 `fpcprops <context description>`: the property table -/
@@ -142,6 +247,40 @@ def handle (op : String) : Option (P String) :=
     match fromDesc d with
     | none => pure "none"
     | some p => pure s!"some {showProps p}"
+  else if op == "fpccompile" then some do
+    let toks ← get
+    set ([] : List String)
+    match readSexps (" ".intercalate toks) with
+    | .error e => throw e
+    | .ok xs =>
+      match lprogOf xs with
+      | .error e => throw e
+      | .ok (cfg, ps, d, b) =>
+        match compileFunL cfg ps d b with
+        | none => pure "reject"
+        | some core => pure s!"ok {showPropsX core.props} {showF core.body}"
+  else if op == "fpcmodel2" then some do
+    let toks ← get
+    set ([] : List String)
+    match readSexps (" ".intercalate toks) with
+    | .error e => throw e
+    | .ok (.atom fuel :: rest) =>
+      match rest.reverse with
+      | .list args :: revprog =>
+        match (do
+          let prog ← lprogOf revprog.reverse
+          let vs ← args.mapM (fun a => do let (v, _) ← valOf [] a; pure v)
+          pure (prog, vs) : R _) with
+        | .error e => throw e
+        | .ok ((cfg, ps, d, b), vs) =>
+          match compileFunL cfg ps d b with
+          | none => pure "reject"
+          | some core =>
+            match evalCore (fuel.toNat?.getD 1000) core vs with
+            | .error e => pure s!"err {errName e}"
+            | .ok v => pure s!"ok {showVal [] v}"
+      | _ => throw "shape"
+    | .ok _ => throw "shape"
   else if op == "fpcmodel" then some do
     let toks ← get
     set ([] : List String)
@@ -165,6 +304,28 @@ def handle (op : String) : Option (P String) :=
           match evalCore (fuel.toNat?.getD 1000) core vs with
           | .error e => pure s!"err {errName e}"
           | .ok v => pure s!"ok {showVal [] v}"
+    | .ok _ => throw "shape"
+  else if op == "fpcread" then some do
+    -- `fpcread <fuel> (params…) (props…) <expr> (args…)`: the MODEL of the reader (`readFun`), the function it returns called on the arguments
+    let toks ← get
+    set ([] : List String)
+    match readSexps (" ".intercalate toks) with
+    | .error e => throw e
+    | .ok [.atom fuel, .list params, .list props, body, .list args] =>
+      match (do
+        let ps ← params.mapM atomOf
+        let pr ← propsOf props
+        let e ← fexprOf body
+        let vs ← args.mapM (fun a => do let (v, _) ← valOf [] a; pure v)
+        pure (ps, pr, e, vs) : R _) with
+      | .error e => throw e
+      | .ok (ps, pr, e, vs) =>
+        match readFun (fun k => s!"r{k}") "f" { params := ps, props := pr, body := e } with
+        | none => pure "reject"
+        | some fd =>
+          match callEntry ⟨[fd]⟩ (fuel.toNat?.getD 1000) "f" vs [] none with
+          | .error e => pure s!"err {errName e}"
+          | .ok (v, μ) => pure s!"ok {showVal μ v}"
     | .ok _ => throw "shape"
   else if op != "fpceval" then none else
   some do
